@@ -39,6 +39,7 @@
 package main
 
 import (
+	"errors"
 	"fmt"
 	"io"
 	"os"
@@ -215,7 +216,12 @@ func run(c *harness.Case) {
 			_ = rs.AddChain(chain)
 			if err := rs.Err(); err != nil {
 				if nfsim.IsRejected(err) {
-					c.Violationf("rejected-by-kernel:"+fl, detail(map[string]any{"ipVersion": ipv, "error": err.Error(), "rendered": rs.Dump()}),
+					class := "unknown"
+					var ne *nfsim.Error
+					if errors.As(err, &ne) && ne.Class != "" {
+						class = ne.Class
+					}
+					c.Violationf("rejected:"+class+":"+fl, detail(map[string]any{"ipVersion": ipv, "error": err.Error(), "rendered": rs.Dump()}),
 						"%s v%d: a rendered rule would be refused at load time: %v", fl, ipv, err)
 					continue
 				}
